@@ -15,7 +15,8 @@ _PRE = {}
 class Inst:
     def __init__(self, props, name, call, tier='quick', unwind=2, unwindset=None, stubs=(), models=(),
                  cap=300, cap_thorough=1800, mem=4, desc='', shape=None, role=None, weight=1,
-                 allow_uncovered=False, no_asserts_ok=False, sat='cadical'):
+                 allow_uncovered=False, no_asserts_ok=False, sat='cadical', fs=None):
+        self.fs = fs
         self.props = props if isinstance(props, (list, tuple)) else [props]
         self.name, self.call, self.tier = name, call, tier
         self.unwind, self.unwindset = unwind, dict(unwindset or {})
